@@ -1,5 +1,6 @@
 import GqlgenVerif.Model.IntroGate
 import GqlgenVerif.Lemmas.Exec
+import GqlgenVerif.Lemmas.ExecLocal
 /-! Helper lemmas for the disabled-introspection half of C16 (over the C01 execution model). -/
 namespace GqlgenVerif.IntroGate
 open GqlgenVerif Spec
@@ -29,9 +30,9 @@ theorem exec_eq_spec (o : Oracle) (rootTy : String) (fields : List (FInfo × Sha
 
 /-- a field without schema directives whose bound method fails: null (or propagate) with that error -/
 theorem spec_gated_field (o : Oracle) (fi : FInfo) (sh : Shape) (p : Path) (m : String)
-    (hd : fi.dirs = []) (hr : o.res p = .err m) :
+    (hd : fi.dirs = []) (hp : fi.plain = false) (hr : o.res p = .err m) :
     Spec.completeField o fi sh p = (Spec.failed sh.nn, eff [⟨p, m⟩] [(pathStr p, "resolver")]) := by
-  simp [Spec.completeField, hd, Impl.runDirs, hr]
+  simp [Spec.completeField, hd, Impl.runDirs, Oracle.outcome, hp, hr]
 
 theorem alias_unique : ∀ (fields : List (FInfo × Shape)), fieldsWF fields →
     ∀ f g, f ∈ fields → g ∈ fields → f.1.alias = g.1.alias → f = g
@@ -92,7 +93,7 @@ theorem completeFields_cons (o : Oracle) (ty : String) (fj : FInfo) (shj : Shape
 theorem spec_fields_gated (o : Oracle) (ty : String) (p : Path) :
     ∀ fields : List (FInfo × Shape),
       (∀ f ∈ fields, isGated f.1.name = true →
-        f.1.dirs = [] ∧ o.res (p ++ [.key f.1.alias]) = .err (gateMsg f.1.name)) →
+        f.1.dirs = [] ∧ f.1.plain = false ∧ o.res (p ++ [.key f.1.alias]) = .err (gateMsg f.1.name)) →
       ∀ fi sh, (fi, sh) ∈ fields → isGated fi.name = true →
         (⟨p ++ [.key fi.alias], gateMsg fi.name⟩ : Err) ∈ (Spec.completeFields o ty fields p).2.errs ∧
         (∀ os, (Spec.completeFields o ty fields p).1 = some os → (fi.alias, Out.null) ∈ os) ∧
@@ -109,7 +110,7 @@ theorem spec_fields_gated (o : Oracle) (ty : String) (p : Path) :
         unfold headRes
         rw [gated_ne_typename hg]
         simp only [Bool.false_eq_true, if_false]
-        exact spec_gated_field o fj shj _ _ hh.1 hh.2
+        exact spec_gated_field o fj shj _ _ hh.1 hh.2.1 hh.2.2
       rw [hr]
       refine ⟨by simp, ?_, ?_⟩
       · intro os hos
@@ -132,7 +133,8 @@ theorem spec_fields_gated (o : Oracle) (ty : String) (p : Path) :
         cases r11 <;> rfl
 
 theorem gatedNoDirs_mem {fields : List (FInfo × Shape)} (h : gatedNoDirs fields = true)
-    {f : FInfo × Shape} (hf : f ∈ fields) (hg : isGated f.1.name = true) : f.1.dirs = [] := by
+    {f : FInfo × Shape} (hf : f ∈ fields) (hg : isGated f.1.name = true) :
+    f.1.dirs = [] ∧ f.1.plain = false := by
   have := List.all_eq_true.mp h f hf
   simpa [hg] using this
 
@@ -141,71 +143,8 @@ theorem gateOracle_res_gated (fields : List (FInfo × Shape)) (hwf : fieldsWF fi
     (gateOracle fields o).res [.key fi.alias] = .err (gateMsg fi.name) := by
   simp [gateOracle, gatedAt_self fields hwf fi sh hmem hg]
 
-/-! ### locality: completion of a position consults user code only at paths under that position -/
-
-def Agree (o1 o2 : Oracle) (p : Path) : Prop :=
-  ∀ q, p <+: q → o1.res q = o2.res q ∧ ∀ n, o1.dir q n = o2.dir q n
-
-theorem Agree.snoc {o1 o2 : Oracle} {p : Path} (h : Agree o1 o2 p) (a : Seg) : Agree o1 o2 (p ++ [a]) :=
-  fun q hq => h q (List.IsPrefix.trans (List.prefix_append p [a]) hq)
-
-theorem runDirs_congr (o1 o2 : Oracle) (p : Path) (h : ∀ n, o1.dir p n = o2.dir p n) :
-    ∀ (ds : List String) (st : St), Impl.runDirs o1 p ds st = Impl.runDirs o2 p ds st
-  | [], st => by simp [Impl.runDirs]
-  | d :: inner, st => by
-    simp only [Impl.runDirs, h d]
-    cases o2.dir p d <;> simp [runDirs_congr o1 o2 p h inner]
-
-mutual
-theorem value_congr (o1 o2 : Oracle) : ∀ (sh : Shape) (v : V) (p : Path), Agree o1 o2 p →
-    Spec.completeValue o1 sh v p = Spec.completeValue o2 sh v p
-  | .leaf nn, v, p, _ => by cases v <;> simp [Spec.completeValue]
-  | .obj nn ifc cases, v, p, h => by
-    cases v with
-    | obj ty => simp only [Spec.completeValue]; rw [cases_congr o1 o2 ty cases p h]
-    | null => simp [Spec.completeValue]
-    | leaf t => simp [Spec.completeValue]
-    | list vs => simp [Spec.completeValue]
-  | .list nn ec elem, v, p, h => by
-    cases v with
-    | list vs => simp only [Spec.completeValue]; rw [elems_congr o1 o2 elem ec vs p 0 h]
-    | null => simp [Spec.completeValue]
-    | leaf t => simp [Spec.completeValue]
-    | obj ty => simp [Spec.completeValue]
-
-theorem cases_congr (o1 o2 : Oracle) (ty : String) : ∀ (cases : List (String × List (FInfo × Shape)))
-    (p : Path), Agree o1 o2 p → Spec.completeCases o1 ty cases p = Spec.completeCases o2 ty cases p
-  | [], p, _ => by simp [Spec.completeCases]
-  | (c, fields) :: rest, p, h => by
-    simp only [Spec.completeCases]
-    rw [fields_congr o1 o2 ty fields p h, cases_congr o1 o2 ty rest p h]
-
-theorem fields_congr (o1 o2 : Oracle) (ty : String) : ∀ (fields : List (FInfo × Shape)) (p : Path),
-    Agree o1 o2 p → Spec.completeFields o1 ty fields p = Spec.completeFields o2 ty fields p
-  | [], p, _ => by simp [Spec.completeFields]
-  | (fi, sh) :: rest, p, h => by
-    simp only [Spec.completeFields]
-    rw [field_congr o1 o2 fi sh _ (h.snoc _), fields_congr o1 o2 ty rest p h]
-
-theorem field_congr (o1 o2 : Oracle) (fi : FInfo) : ∀ (sh : Shape) (p : Path), Agree o1 o2 p →
-    Spec.completeField o1 fi sh p = Spec.completeField o2 fi sh p
-  | sh, p, h => by
-    have hp := h p (List.prefix_refl p)
-    simp only [Spec.completeField]
-    rw [runDirs_congr o1 o2 p hp.2, hp.1]
-    simp only [value_congr o1 o2 sh _ p h]
-
-theorem elems_congr (o1 o2 : Oracle) : ∀ (elem : Shape) (ec : Bool) (vs : List V) (p : Path) (i : Nat),
-    Agree o1 o2 p → Spec.completeElems o1 elem ec vs p i = Spec.completeElems o2 elem ec vs p i
-  | elem, ec, [], p, i, _ => by simp [Spec.completeElems]
-  | elem, ec, v :: rest, p, i, h => by
-    simp only [Spec.completeElems]
-    have hq : Agree o1 o2 (if ec = true then p ++ [Seg.idx i] else p) := by
-      cases ec
-      · simpa using h
-      · simpa using h.snoc _
-    rw [value_congr o1 o2 elem v _ hq, elems_congr o1 o2 elem ec rest p (i + 1) h]
-end
+/-! locality (completion of a position consults user code only at paths under that position) is
+    `Lemmas/ExecLocal.lean: field_local` over `AgreeUnder`. -/
 
 theorem gateOracle_res_other (fields : List (FInfo × Shape)) (o : Oracle) (q : Path)
     (h : ∀ k, q = [.key k] → gatedAt fields k = none) : (gateOracle fields o).res q = o.res q := by
@@ -222,7 +161,8 @@ theorem gateOracle_res_other (fields : List (FInfo × Shape)) (o : Oracle) (q : 
 theorem spec_fields_noninterference (fields : List (FInfo × Shape)) (hwf : fieldsWF fields)
     (hnd : gatedNoDirs fields = true) (o1 o2 : Oracle)
     (h : ∀ q, (∀ f ∈ fields, isGated f.1.name = true → ¬ [Seg.key f.1.alias] <+: q) →
-      o1.res q = o2.res q ∧ ∀ n, o1.dir q n = o2.dir q n) (ty : String) :
+      o1.res q = o2.res q ∧ (∀ n, o1.dir q n = o2.dir q n) ∧
+        ∀ n, o1.plain q.dropLast n = o2.plain q.dropLast n) (ty : String) :
     ∀ fs : List (FInfo × Shape), (∀ f ∈ fs, f ∈ fields) →
       Spec.completeFields (gateOracle fields o1) ty fs [] = Spec.completeFields (gateOracle fields o2) ty fs []
   | [], _ => by simp [Spec.completeFields]
@@ -238,10 +178,10 @@ theorem spec_fields_noninterference (fields : List (FInfo × Shape)) (hwf : fiel
         cases hg : isGated fj.name with
         | true =>
           have hd := gatedNoDirs_mem hnd hmem hg
-          rw [spec_gated_field _ fj shj _ _ hd (by simpa using gateOracle_res_gated fields hwf o1 fj shj hmem hg),
-            spec_gated_field _ fj shj _ _ hd (by simpa using gateOracle_res_gated fields hwf o2 fj shj hmem hg)]
+          rw [spec_gated_field _ fj shj _ _ hd.1 hd.2 (by simpa using gateOracle_res_gated fields hwf o1 fj shj hmem hg),
+            spec_gated_field _ fj shj _ _ hd.1 hd.2 (by simpa using gateOracle_res_gated fields hwf o2 fj shj hmem hg)]
         | false =>
-          apply field_congr
+          apply field_local
           intro q hq
           have hk : ∀ k, q = [Seg.key k] → gatedAt fields k = none := by
             intro k hk
@@ -263,7 +203,7 @@ theorem spec_fields_noninterference (fields : List (FInfo × Shape)) (hwf : fiel
             simp [hg] at hgf
           have hh := h q hcond
           exact ⟨by rw [gateOracle_res_other fields o1 q hk, gateOracle_res_other fields o2 q hk]; exact hh.1,
-            fun n => hh.2 n⟩
+            fun n => hh.2.1 n, fun n => hh.2.2 n⟩
     rw [hhead]
 
 end GqlgenVerif.IntroGate
